@@ -1,6 +1,7 @@
 import HdModel.Model.Util
 import HdModel.Spec.Eyeballs
 import HdModel.Model.Dns
+import HdModel.Model.TcpConnect
 namespace Hd.Eyeballs
 
 def optTok (s : String) : Option Nat := if s == "-" then none else some (natTok s)
@@ -77,7 +78,6 @@ def tcpcLine (inp obs : List String) : Bool × Bool × String × String :=
     let n := kinds.length
     let bind6 := b6 == "1"
     let addrs : List Dns.Addr := (List.range n).map fun i => { v6 := (kinds.getD i "").endsWith "6", id := i, port := 0 }
-    let order := Dns.connectingOrder (t != "-") false bind6 addrs
     let attOf := fun (kind : String) => (match kind with
       | "ok" => ({ lat := some 0, out := .ok } : Attempt)
       | "ok6" => { lat := some 0, out := if bind6 then .err else .ok }
@@ -85,8 +85,9 @@ def tcpcLine (inp obs : List String) : Bool × Bool × String × String :=
       | _ => { lat := some 0, out := .err })
     let errKind := fun (kind : String) =>
       if kind.endsWith "6" && bind6 then "bind" else if kind == "hang" then "ctimeout" else "refused"
-    let atts := order.map fun a => attOf (kinds.getD a.id "")
-    let m := run (tcpCfg (optTok t) (optTok conc) n) atts
+    let out := TcpConnect.connect (optTok t) (optTok conc) false bind6 addrs (fun a => attOf (kinds.getD a.id ""))
+    let order := out.order
+    let m := (out.res, out.st)
     let idOf := fun (j : Nat) => (order.getD j { v6 := false, id := 999, port := 0 }).id
     let shown := match m.1 with
       | .ok j tm => s!"ok {idOf j} {tm}"
